@@ -15,13 +15,15 @@
 (*   CandidatesSound   every candidate pair the selector offers is legal:  *)
 (*                     right register types and inserting there keeps the  *)
 (*                     circuit acyclic and emission-shaped                 *)
-(*   MoveEffect        the move did what its name says, to one operation   *)
+(*   MoveEffect        the move did what its name says, to one operation - *)
+(*                     INFORMATION only (the property constrains the       *)
+(*                     circuits reached, not what a single move does)      *)
 (***************************************************************************)
 EXTENDS CircuitDag, Json, IOUtils
 
 Traces == JsonDeserialize(IOEnv.TRACE_FILE)
-VARIABLES tid, l, why, cur
-vars == <<tid, l, why, cur>>
+VARIABLES tid, l, why, cur, note
+vars == <<tid, l, why, cur, note>>
 Events(t) == Traces[t].events
 
 OpIds(o) == {n \in NodeIds(o) : NodeRec(o, n).io = ""}
@@ -111,11 +113,10 @@ Verdict(t, pre, e) ==
     IF s # "ok" THEN s
     ELSE IF ~EmissionShape(post) THEN "EmissionShape"
     ELSE IF ~FixedPreserved(Traces[t].init, post) THEN "FixedPreserved"
-    ELSE IF ~MoveEffect(pre, post, e.move) THEN "MoveEffect"
     ELSE "ok"
 
 Init ==
-  /\ tid \in 1..Len(Traces) /\ l = 1 /\ cur = Traces[tid].init
+  /\ tid \in 1..Len(Traces) /\ l = 1 /\ cur = Traces[tid].init /\ note = ""
   /\ why = LET s == StructClause(Traces[tid].init) IN
            IF s # "ok" THEN "Init" \o s
            ELSE IF ~EmissionShape(Traces[tid].init) THEN "InitEmissionShape" ELSE "ok"
@@ -124,9 +125,12 @@ Next ==
   /\ LET e == Events(tid)[l] IN
        /\ why' = Verdict(tid, cur, e)
        /\ cur' = IF e.obs.err = "" THEN e.obs ELSE cur
+       /\ note' = IF Verdict(tid, cur, e) = "ok" /\ ~MoveEffect(cur, e.obs, e.move)
+                  THEN "a move changed more than one operation of its kind: " \o e.move ELSE ""
   /\ l' = l + 1 /\ tid' = tid
 TraceSpec == Init /\ [][Next]_vars
 Report ==
   /\ (why # "ok") => PrintT(<<"REJECT", Traces[tid].tid, l - 1, why, IF l = 1 THEN "init" ELSE Events(tid)[l - 1].move>>)
   /\ (why = "ok" /\ l = Len(Events(tid)) + 1) => PrintT(<<"DONE", Traces[tid].tid>>)
+  /\ (note # "") => PrintT(<<"INFO", Traces[tid].tid, l - 1, note>>)
 =============================================================================
